@@ -21,6 +21,7 @@ the generated family it is checked to invert the construction of the objects."""
 
 import itertools
 import multiprocessing as mp
+import os
 import random
 
 from . import common, tlc
@@ -478,7 +479,16 @@ def run(tier, seed, ev, vd):
         'final table compared as a bag (order of interactions is not part of the statement); node attributes as sets of pairs',
         'link features are declarations (ForceField.has_feature) and condition nothing; log entries and citations are not modelled']
     quick = tier == 'quick'
-    res = tlc.run('LinksOrder', 'SPECIFICATION Spec\nINVARIANT OpIsDoc\nINVARIANT Symmetric\nINVARIANT SameOrderSameResidue\n',
+    # for ALL integers (residue numbers, offsets, arrow / star counts) Apalache proves: implementation-shaped relation =
+    # documented matrix, symmetry, same order => same residue (spec/LinksOrderApa.tla); TLC's ApaIsTheSame ties those typed
+    # copies to the operators of Links.tla on every row of the table below
+    from . import apalache
+    apa = apalache.check_init_invariant('LinksOrderApa', 'Inv')
+    if not apa['ok']:
+        raise tlc.MachineryError('LinksOrderApa: Apalache refutes conjunct %s of Inv' % apa['violated_conjunct'])
+    ev.extra['apalache'] = dict(apa, note='initial-state invariant over unbounded integers')
+    res = tlc.run('LinksOrder', 'SPECIFICATION Spec\nINVARIANT OpIsDoc\nINVARIANT Symmetric\nINVARIANT SameOrderSameResidue\n'
+                  'INVARIANT ApaIsTheSame\n',
                   consts={'MaxNum': '2', 'MaxArrow': '3', 'Resids': '1..5' if quick else '-1..6'}, dump=True, timeout=1800)
     if res.violated:
         raise tlc.MachineryError('LinksOrder violates ' + res.violated)
@@ -575,6 +585,13 @@ def replay(sc):
 
 
 def selftest(seed):
+    from . import apalache
+    _src = open(os.path.join(tlc.SPEC_DIR, 'LinksOrderApa.tla')).read()
+    _mut = _src.replace('THEN IF p2.k = "num" /\\ p2.v = 0 THEN Sgn(s1 - s2) = Sgn(Signed(p1))', 'THEN IF p2.k = "num" /\\ p2.v = 0 THEN Sgn(s2 - s1) = Sgn(Signed(p1))')
+    assert _mut != _src
+    _r = apalache.check_init_invariant('LinksOrderApa', 'Inv', text=_mut)
+    assert not _r['ok'], 'Apalache accepted a mutated order relation'
+    print('selftest C05: Apalache refutes the mutated order relation (conjunct %s of Inv)' % _r['violated_conjunct'])
     import copy
     import os
     events = _run_chunk((60, seed))
